@@ -174,6 +174,20 @@ class Tree:
                     for t in st.targets:
                         if isinstance(t, ast.Name):
                             m.assigns[t.id] = st.value
+                        elif isinstance(t, (ast.Tuple, ast.List)) and all(isinstance(x, ast.Name) for x in t.elts):
+                            # a, b, c = range(3)   /   a, b = (1, 2)
+                            v = st.value
+                            items = None
+                            if isinstance(v, (ast.Tuple, ast.List)) and len(v.elts) == len(t.elts):
+                                items = list(v.elts)
+                            elif isinstance(v, ast.Call) and isinstance(v.func, ast.Name) and v.func.id == "range" and not v.keywords \
+                                    and all(isinstance(a_, ast.Constant) and isinstance(a_.value, int) for a_ in v.args) and 1 <= len(v.args) <= 3:
+                                rng = list(range(*[a_.value for a_ in v.args]))
+                                if len(rng) == len(t.elts):
+                                    items = [ast.copy_location(ast.Constant(value=k_), v) for k_ in rng]
+                            if items is not None:
+                                for x, it in zip(t.elts, items):
+                                    m.assigns[x.id] = it
                 elif isinstance(st, ast.AnnAssign):
                     if isinstance(st.target, ast.Name) and st.value is not None:
                         m.assigns[st.target.id] = st.value
